@@ -5,10 +5,12 @@
 package seqx
 
 import (
+	"errors"
 	"fmt"
 	"os"
 	"sync"
 	"sync/atomic"
+	"time"
 )
 
 type Viol struct {
@@ -63,7 +65,7 @@ func Run(cfg Config, trace []string) (Sys, []Viol, error) {
 	s := cfg.New()
 	var vs []Viol
 	for i, ev := range trace {
-		if err := s.Apply(ev); err != nil {
+		if err := apply(s, ev); err != nil {
 			return s, vs, fmt.Errorf("event %d (%s): %w", i, ev, err)
 		}
 		vs = append(vs, s.Check()...)
@@ -83,7 +85,7 @@ func Explore(cfg Config) Stats {
 	var mu sync.Mutex
 	root := cfg.New()
 	rootFp := root.Fingerprint()
-	root.Close()
+	closeSys(root)
 	seen[rootFp] = true
 	st.States = 1
 	frontier := []node{{nil, rootFp}}
@@ -118,7 +120,7 @@ func Explore(cfg Config) Stats {
 						s = cfg.New()
 						err = nil
 						for i, e := range n.trace {
-							if err = s.Apply(e); err != nil {
+							if err = apply(s, e); err != nil {
 								err = fmt.Errorf("event %d (%s): %w", i, e, err)
 								break
 							}
@@ -127,27 +129,27 @@ func Explore(cfg Config) Stats {
 							break
 						}
 						if attempt == 0 {
-							s.Close()
+							closeSys(s)
 							atomic.AddInt64(&st.Retried, 1)
 						}
 					}
 					atomic.AddInt64(&st.Executions, 1)
 					if err != nil {
-						s.Close()
+						closeSys(s)
 						if cfg.OnInfra != nil {
 							cfg.OnInfra(n.trace, err)
 						}
 						continue
 					}
 					if fp := s.Fingerprint(); fp != n.fp {
-						s.Close()
+						closeSys(s)
 						if cfg.OnInfra != nil {
 							cfg.OnInfra(n.trace, fmt.Errorf("nondeterminism: replaying the same prefix gave a different state\n first: %s\nsecond: %s", n.fp, fp))
 						}
 						continue
 					}
 					evs := s.Enabled()
-					s.Close()
+					closeSys(s)
 					for _, ev := range evs {
 						tr := append(append([]string{}, n.trace...), ev)
 						var c Sys
@@ -159,7 +161,7 @@ func Explore(cfg Config) Stats {
 							c = cfg.New()
 							ierr = nil
 							for i, e := range tr {
-								if ierr = c.Apply(e); ierr != nil {
+								if ierr = apply(c, e); ierr != nil {
 									ierr = fmt.Errorf("event %d (%s): %w", i, e, ierr)
 									break
 								}
@@ -169,14 +171,14 @@ func Explore(cfg Config) Stats {
 								break
 							}
 							if attempt == 0 {
-								c.Close()
+								closeSys(c)
 								atomic.AddInt64(&st.Retried, 1)
 							}
 						}
 						atomic.AddInt64(&st.Executions, 1)
 						atomic.AddInt64(&st.Transitions, 1)
 						if ierr != nil {
-							c.Close()
+							closeSys(c)
 							if cfg.OnInfra != nil {
 								cfg.OnInfra(tr, ierr)
 							}
@@ -184,7 +186,7 @@ func Explore(cfg Config) Stats {
 						}
 						vs := c.Check()
 						fp := c.Fingerprint()
-						c.Close()
+						closeSys(c)
 						for _, v := range vs {
 							if cfg.OnViolation != nil {
 								cfg.OnViolation(tr, v)
@@ -227,4 +229,40 @@ func Explore(cfg Config) Stats {
 		}
 	}
 	return st
+}
+
+// ErrStuck: an event did not return. The system under test is blocked (a lock taken twice, a wait nobody
+// answers); every event normally takes milliseconds, so StuckAfter is no judgement about speed.
+var ErrStuck = errors.New("the event did not return: the system under test is blocked")
+
+// StuckAfter is how long an event may run before it is given up.
+var StuckAfter = 90 * time.Second
+
+var stuck sync.Map // Sys -> true: its goroutine is still inside Apply; it is never closed
+
+func apply(s Sys, ev string) error {
+	if _, ok := stuck.Load(s); ok {
+		return ErrStuck
+	}
+	done := make(chan error, 1)
+	go func() { done <- s.Apply(ev) }()
+	t := time.NewTimer(StuckAfter)
+	defer t.Stop()
+	select {
+	case err := <-done:
+		return err
+	case <-t.C:
+		stuck.Store(s, true)
+		return fmt.Errorf("%w (gave up after %v)", ErrStuck, StuckAfter)
+	}
+}
+
+// Close closes s unless it is stuck inside an event (closing would block on the same thing).
+func Close(s Sys) { closeSys(s) }
+
+func closeSys(s Sys) {
+	if _, ok := stuck.Load(s); ok {
+		return // closing would block on the same thing
+	}
+	s.Close()
 }
